@@ -1,15 +1,24 @@
 #!/usr/bin/env python3
 """rs2lean5b: phase 5b of the Rust -> Lean translator: the recursive RELATIONAL functions of functions.rs -
 `compare` and its group (`compare_scalar`, `compare_container`, `compare_array`, `compare_object`), the
-comparable key (`convert_to_comparable` and its group) and containment (`scalar_eq`, `array_contains`,
-`contains_jsonb`).  Extends the subset of tools/rs2lean4.py (-> rs2lean3.py -> rs2lean2.py -> rs2lean.py) with
-  * the public `compare`: `if <sniff> { <text> } else if <sniff> { <text> } else if <sniff> { <text> }` whose
-    branches all leave the function: each text branch calls the JSON text parser (and `compare` itself on the
-    re-encoded documents) and is kept as a parameter `text1__`, `text2__`, `text3__` holding its result;
-  * functions without a result (`fn f(.., buf: &mut Vec<u8>)`) inside a recursive group, `return;`;
-  * `let x = match <call returning Result> { Ok(p) => p, Err(_) => { return; } };`;
-  * `if let Ok(p) = <call returning Result> { .. }`;
-  * `x.saturating_add(n)`, `a ^ b` and `>>` on signed integers (arithmetic shift), `b[i] ^= m` on a byte array.
+comparable key (`convert_to_comparable` and its group) and containment (`Number::eq`, `scalar_eq`, `array_contains`,
+`contains_jsonb`, `contains`).  Extends the subset of tools/rs2lean4.py (-> rs2lean3.py -> rs2lean2.py -> rs2lean.py) with
+  * the public `compare` / `contains`: `if <sniff> { <text> } [else if <sniff> { <text> } ..]` whose branches all leave
+    the function: each text branch calls the JSON text parser (and the function itself on the re-encoded documents) and
+    is kept as a parameter `text1__`, `text2__`, .. holding its result; `convert_to_comparable` (no result, `&mut` buffer):
+    `if <sniff> { <text>; return; }` -> the parameter `text__` holds the final buffer;
+  * `return;` inside a loop of a function with `&mut` parameters (the parameters are free variables of the hoisted body);
+  * `if let Ok(p) = <call> { .. }`, `match (<call>, <call>) { (Ok(a), Ok(b)) => .., _ => .. }` on calls of translated
+    functions without `&mut` parameters (`Rs.resOpt`: the error values are dropped, panics stay);
+  * `x.saturating_add(n)`, `& | ^` on signed integers (two's complement), `b[i] op= lit` on a byte array,
+    `r.unwrap_or(<bool>)` on a `Result<bool>`;
+  * `a == b` / `a != b` on a type with a translated `impl PartialEq .. fn eq` (`Number`; where a type implements the trait
+    more than once the item is selected by its signature, `SELECT`);
+  * `for x in <iterator struct>` INSIDE a recursive group: bounded by the function's `fuel` like a call of a member, the
+    members the body calls are parameters of the hoisted body; a hoisted body that needs `fuel` itself (it calls a
+    fuel-taking function that is not a member, or collects an iterator) takes it as its first parameter;
+  * `<iterator struct>.filter(|p| c).map(|p| x).collect()` with pure closures: `Rs.collectIter fuel T.next it`, then
+    `List.filter` / `List.map`; `let v: Vec<_> = ..` (the annotation's `_` is inferred).
 Output: lean/JsonbModel/Generated/Translated5b.lean (namespace Jsonb.Tr, after the phase-1..4 files).
 The semantics of every new primitive is in the hand-written lean/JsonbModel/RustPrelude5b.lean.
 Same conventions as the earlier phases (see tools/RS2LEAN.md): reads $VERIF_REPO (default /repo), writes
